@@ -140,6 +140,9 @@ def gen_tree(rng):
                 extra = rng.choice([x for x in NS_POOL if x[0] not in prefixes] or NS_POOL)
                 b["prefix"] = {extra[0]: extra[1]}
                 bpfx.append(extra[0])
+            if rng.random() < 0.3:
+                # the bundle's prefix block re-binds a prefix of the document to another URI
+                b.setdefault("prefix", {})[rng.choice(prefixes)] = "http://rebound.test/%d/" % j
             b.update(gen_container(rng, bpfx, rng.choice([1, 2, 3])))
             doc["bundle"][rng.choice(prefixes) + ":b%d" % j] = b
     return doc
@@ -280,6 +283,22 @@ def run_case(args):
                 out["fails"].append({"what": "write/re-load of a loaded document changed its content", "feats": feats})
         except Exception as e:
             out["fails"].append({"what": "write/re-load of a loaded document raised", "exc": repr(e)[:300], "feats": feats})
+        # across formats: JSON text -> d -> XML -> d' has the content of d when d is XML-expressible
+        from harness.props import c02
+        if c02.expressible(d):
+            out["xml"] = "expressible"
+            for ft in (False, True):
+                try:
+                    xt = d.serialize(format="xml", force_types=ft)
+                    d3 = M.ProvDocument.deserialize(content=xt, format="xml")
+                    if strict_doc(d3) != want:
+                        out["fails"].append({"what": "JSON -> d -> XML -> d' changed the content", "force_types": ft,
+                                             "feats": feats})
+                        break
+                except Exception as e:
+                    out["fails"].append({"what": "JSON -> d -> XML -> d' raised", "exc": repr(e)[:300], "feats": feats,
+                                         "force_types": ft})
+                    break
         # never drops or invents: against the specification reader
         spec = loads(common.run_model_batch([dumps(["jsonspec", I.float_table(jt), jt])])[0])
         if spec != ["none"]:
